@@ -248,6 +248,9 @@ type request struct {
 	Presented string // id presented through the configured source ("" = nothing presented)
 	Class     string // how the id was chosen (jar, old, forged-random, …)
 	Cookie    string // `source` family: an id additionally presented as a cookie of the same name
+	Outer     bool   // store API in a handler in front of the middleware: Pre, (MW + Ops), Post
+	Pre       []op
+	Post      []op
 	Fault     string // "", "get-first", "get-outage": Storage.Get fails during this request
 	Ops       []op
 }
@@ -281,6 +284,7 @@ type curT struct {
 type judge struct {
 	w       *world
 	rq      *request
+	mw      bool // the session currently judged is the middleware's
 	via     string
 	cur     curT
 	created []string // ids of sessions created for this request by Store.Get / the middleware
@@ -288,7 +292,8 @@ type judge struct {
 	vs      []vio
 	stop    bool
 	// what happened, for the non-triviality rule and statistics
-	usedDead  string // cause of death of a dead id that was presented / looked up
+	otherName []string // "name=id" emitted under a differently-cased cookie name
+	usedDead  string   // cause of death of a dead id that was presented / looked up
 	deadProbe int
 }
 
@@ -498,8 +503,11 @@ func (j *judge) changeID(o *opObs, what string) bool {
 // run judges one request against the specification and advances it.
 func (w *world) judgeRequest(rq *request, ob *reqObs) *judge {
 	j := &judge{w: w, rq: rq, via: "store"}
+	if rq.Outer {
+		return j
+	}
 	if rq.MW {
-		j.via = "mw"
+		j.via, j.mw = "mw", true
 	}
 	if ob.Fatal != "" {
 		j.fail(&vio{"api|handler-could-not-run|" + j.via, ob.Fatal})
@@ -522,6 +530,58 @@ func (w *world) judgeRequest(rq *request, ob *reqObs) *judge {
 	if rq.MW && j.cur.held && !j.cur.destroyed {
 		j.persist()
 	}
+	return j
+}
+
+// judgeOuter judges a request in which a handler in front of the session middleware uses the
+// store API on the same store. Events in order: Store.Get, Pre ops, the middleware's lookup,
+// inner ops, the middleware's save, Post ops, Release. Both sessions are independent copies;
+// whatever is saved last under an id is what the next request presenting that id sees.
+func (w *world) judgeOuter(rq *request, outer, inner *reqObs) *judge {
+	j := &judge{w: w, rq: rq, via: "store"}
+	if outer.Fatal != "" {
+		j.fail(&vio{"api|handler-could-not-run|store", outer.Fatal})
+		return j
+	}
+	j.acquire(&outer.Start, true, "outer start")
+	k := 0
+	run := func(ops []op, obs *reqObs, base *int, label string) {
+		for i := range ops {
+			if j.stop {
+				return
+			}
+			if *base >= len(obs.Ops) {
+				j.fail(&vio{"harness|missing-observation", label + " script longer than observations"})
+				return
+			}
+			j.step(ops[i], &obs.Ops[*base], *base)
+			*base++
+		}
+	}
+	run(rq.Pre, outer, &k, "outer")
+	if j.stop {
+		return j
+	}
+	curO := j.cur
+	// the middleware
+	j.via, j.mw = "mw", true
+	if inner.Fatal != "" {
+		j.fail(&vio{"api|handler-could-not-run|mw", inner.Fatal})
+		return j
+	}
+	j.acquire(&inner.Start, false, "middleware start")
+	ki := 0
+	run(rq.Ops, inner, &ki, "inner")
+	if j.stop {
+		return j
+	}
+	if j.cur.held && !j.cur.destroyed {
+		j.persist()
+	}
+	// back in the outer handler
+	j.via, j.mw = "store", false
+	j.cur = curO
+	run(rq.Post, outer, &k, "outer")
 	return j
 }
 
@@ -560,7 +620,7 @@ func (j *judge) step(o op, r *opObs, idx int) {
 			j.fail(&vio{"api|save-error|" + j.via, where + ": " + r.Err})
 			return
 		}
-		if !j.rq.MW {
+		if !j.mw {
 			j.persist()
 		}
 	case "destroy":
@@ -765,6 +825,9 @@ func (j *judge) judgeEmission(obs []seen) {
 		if _, dead := w.dead[live]; dead && w.store[live] == nil {
 			j.fail(&vio{"emit|dead-id-emitted|after-" + w.dead[live] + "|" + w.cfg.Source, fmt.Sprintf("response carries id %q which ended by %s", live, w.dead[live])})
 		}
+	case live == "" && j.emit.kind == emID && j.emit.id != j.rq.Presented && len(j.otherName) > 0:
+		j.fail(&vio{"emit|id-under-differently-cased-name|" + w.cfg.Source,
+			fmt.Sprintf("KeyLookup names %q; the new id %q is handed out as %v — cookie names are case-sensitive, the client cannot return it under the configured name", w.cfg.Name, j.emit.id, j.otherName)})
 	case live == "" && j.emit.kind == emID && j.emit.id != j.rq.Presented:
 		j.fail(&vio{"emit|new-id-not-emitted|" + w.cfg.Source, fmt.Sprintf("session saved under new id %q but the response does not carry it (%v)", j.emit.id, obs)})
 	}
